@@ -28,6 +28,66 @@ CASE_VARIANT_KINDS = {"Boolean": "true/false", "DateTime": "the T separator and 
 CASE_TRANSFORMS = {"lower", "upper", "casefold"}
 
 
+def check_py_val_case(ctx: Ctx, env, rule: str = "R4.consumer-case-insensitive") -> int:
+    """The py_val conversions of the literal kinds whose spelling can vary in case (true/TRUE, 1e3/1E3, ...t...z) must not
+    depend on the case of the raw text: comparisons on a case-normalised copy, conversions through case-insensitive parsers."""
+    g, kf = env.grammar, env.kindflow
+    n_cons = 0
+    lexer_normalises: Set[str] = set()
+    for r in g.rules:
+        for p in kf.token_paths.get(r.name, []):
+            v = getattr(p.value, "attrs", {}).get("value") if p.outcome == "return" else None
+            if v is not None and getattr(v, "cls", None) in CASE_VARIANT_KINDS:
+                val = v.fields.get("val")
+                if any(t and t[0] in CASE_TRANSFORMS for t in _transforms_of(val)):
+                    lexer_normalises.add(v.cls)
+    kinds = [k for k in CASE_VARIANT_KINDS if k not in lexer_normalises]
+    # (a) ast.py properties
+    for kind in kinds:
+        ci = env.repo.classes.get("odata_query.ast." + kind)
+        if ci is None:
+            continue
+        r = env.repo.lookup_method(ci.qual, "py_val")
+        if r is None:
+            continue
+        interp = env.interp()
+        pci, fn = r
+
+        def setup(it, kind=kind, pci=pci, fn=fn):
+            return pci.module, fn, [NodeV("node", {kind})], {}, pci.qual
+
+        for p in interp.explore(setup):
+            for k, v in p.conds:
+                if "field(node,'val')" in k and ("==" in k or "in(" in k):
+                    n_cons += 1
+                    ctx.check(any(f"|{t}" in k for t in CASE_TRANSFORMS), rule, f"ast.{kind}.py_val",
+                              f"{kind}.py_val compares the raw text case-sensitively (`{k}`): {CASE_VARIANT_KINDS[kind]} can be written in either case",
+                              pci.module.loc(fn), {"Boolean": "flag eq TRUE", "DateTime": "d eq 2020-01-01t10:00:00z", "Float": "x eq 1E3"}[kind])
+    # (a2) the conversion function applied to the raw text must itself be case-insensitive for this kind
+    INSENSITIVE = {"isoparse", "parse", "float", "int", "UUID", "Decimal"}
+    SENSITIVE = {("DateTime", "fromisoformat"): "datetime.fromisoformat accepts only an upper-case Z (and, before 3.11, only upper-case T)",
+                 ("DateTime", "strptime"): "strptime formats match letters case-sensitively"}
+    for kind in kinds:
+        ci = env.repo.classes.get("odata_query.ast." + kind)
+        r = env.repo.lookup_method(ci.qual, "py_val") if ci else None
+        if r is None:
+            continue
+        pci, fn = r
+        for n in ast.walk(fn):
+            if isinstance(n, ast.Call) and n.args and ast.unparse(n.args[0]) in ("self.val",):
+                callee = n.func.attr if isinstance(n.func, ast.Attribute) else (n.func.id if isinstance(n.func, ast.Name) else "?")
+                n_cons += 1
+                if callee in INSENSITIVE:
+                    ctx.ok(rule, f"ast.{kind}.py_val|{callee}", "case-insensitive conversion (trusted)")
+                elif (kind, callee) in SENSITIVE:
+                    ctx.fail(rule, f"ast.{kind}.py_val|{callee}", f"{kind}.py_val hands the raw text to {callee}(): "
+                             f"{SENSITIVE[(kind, callee)]}, but the lexer also accepts the lower-case spelling", pci.module.loc(n),
+                             "d eq 2020-06-01T00:00:00z")
+                else:
+                    raise AnalysisError(f"{kind}.py_val converts the raw text with {callee}(), whose case behaviour is unknown to the oracle", pci.module.loc(n))
+    return n_cons
+
+
 def run(ctx: Ctx, env):
     g = env.grammar
     gm = grammar_module(env)
@@ -134,7 +194,7 @@ def run(ctx: Ctx, env):
 
     # ---- R4 case normalisation of consumers ------------------------------------------------------------------------------------
     H = heval.get(env)
-    n_cons = 0
+    n_cons = check_py_val_case(ctx, env)
     lexer_normalises: Set[str] = set()
     for r in g.rules:
         for p in kf.token_paths.get(r.name, []):
@@ -144,49 +204,6 @@ def run(ctx: Ctx, env):
                 if any(t and t[0] in CASE_TRANSFORMS for t in _transforms_of(val)):
                     lexer_normalises.add(v.cls)
     kinds = [k for k in CASE_VARIANT_KINDS if k not in lexer_normalises]
-    # (a) ast.py properties
-    for kind in kinds:
-        ci = env.repo.classes.get("odata_query.ast." + kind)
-        if ci is None:
-            continue
-        r = env.repo.lookup_method(ci.qual, "py_val")
-        if r is None:
-            continue
-        interp = env.interp()
-        pci, fn = r
-
-        def setup(it, kind=kind, pci=pci, fn=fn):
-            return pci.module, fn, [NodeV("node", {kind})], {}, pci.qual
-
-        for p in interp.explore(setup):
-            for k, v in p.conds:
-                if "field(node,'val')" in k and ("==" in k or "in(" in k):
-                    n_cons += 1
-                    ctx.check(any(f"|{t}" in k for t in CASE_TRANSFORMS), "R4.consumer-case-insensitive", f"ast.{kind}.py_val",
-                              f"{kind}.py_val compares the raw text case-sensitively (`{k}`): {CASE_VARIANT_KINDS[kind]} can be written in either case",
-                              pci.module.loc(fn), {"Boolean": "flag eq TRUE", "DateTime": "d eq 2020-01-01t10:00:00z", "Float": "x eq 1E3"}[kind])
-    # (a2) the conversion function applied to the raw text must itself be case-insensitive for this kind
-    INSENSITIVE = {"isoparse", "parse", "float", "int", "UUID", "Decimal"}
-    SENSITIVE = {("DateTime", "fromisoformat"): "datetime.fromisoformat accepts only an upper-case Z (and, before 3.11, only upper-case T)",
-                 ("DateTime", "strptime"): "strptime formats match letters case-sensitively"}
-    for kind in kinds:
-        ci = env.repo.classes.get("odata_query.ast." + kind)
-        r = env.repo.lookup_method(ci.qual, "py_val") if ci else None
-        if r is None:
-            continue
-        pci, fn = r
-        for n in ast.walk(fn):
-            if isinstance(n, ast.Call) and n.args and ast.unparse(n.args[0]) in ("self.val",):
-                callee = n.func.attr if isinstance(n.func, ast.Attribute) else (n.func.id if isinstance(n.func, ast.Name) else "?")
-                n_cons += 1
-                if callee in INSENSITIVE:
-                    ctx.ok("R4.consumer-case-insensitive", f"ast.{kind}.py_val|{callee}", "case-insensitive conversion (trusted)")
-                elif (kind, callee) in SENSITIVE:
-                    ctx.fail("R4.consumer-case-insensitive", f"ast.{kind}.py_val|{callee}", f"{kind}.py_val hands the raw text to {callee}(): "
-                             f"{SENSITIVE[(kind, callee)]}, but the lexer also accepts the lower-case spelling", pci.module.loc(n),
-                             "d eq 2020-06-01T00:00:00z")
-                else:
-                    raise AnalysisError(f"{kind}.py_val converts the raw text with {callee}(), whose case behaviour is unknown to the oracle", pci.module.loc(n))
     # (b) back ends
     for vcls in H.visitors():
         vs = H.short(vcls)
